@@ -359,6 +359,9 @@ func runC13(c *an.Ctx) {
 	}
 	c.Check(!nested, "C13.buffer", key+"/catch-errors-propagate", handler.Pos(), "errors of the catch list are not swallowed", "a nested recover in the try handler swallows errors raised by the catch list")
 
+	// the redirect only works if the output destination lives in exactly one place
+	writerCopies(c, "C13.buffer")
+
 	// ---------------------------------------------------------------- C13.catchvar
 	r := explorePairs(p, handler)
 	reportScope(c, "C13.catchvar", r)
